@@ -9,10 +9,10 @@
 #include <boost/gil/extension/numeric/sampler.hpp>
 #include <boost/gil/extension/numeric/resample.hpp>
 using namespace c14;
-struct RsAlg { static constexpr bool needs_compat = true; gil::matrix3x2<double> m;
+struct RsAlg { static constexpr bool needs_equal_dims = false; static constexpr bool needs_compat = true; gil::matrix3x2<double> m;
     template <class S, class D> std::string operator()(S const& s, D const& d) const {
         gil::resample_pixels(s, d, m, gil::nearest_neighbor_sampler()); return ""; } };
-struct RszAlg { static constexpr bool needs_compat = true;
+struct RszAlg { static constexpr bool needs_equal_dims = false; static constexpr bool needs_compat = true;
     template <class S, class D> std::string operator()(S const& s, D const& d) const {
         gil::resize_view(s, d, gil::nearest_neighbor_sampler()); return ""; } };
 int main() {
